@@ -272,12 +272,135 @@ impl C14 {
     }
 }
 
+impl C14 {
+    /// (v) end to end: SolverContext::get_value against the reference solver with constants pinned
+    /// by assertions; the shim re-prints values in randomly chosen legal spellings
+    fn end_to_end(&self, t: &mut Tape, rec: &mut Recorder) -> Result<(), Failure> {
+        use crate::shim::{self, ShimCfg};
+        use patronus::smt::{CheckSatResponse, Logic, Solver, SolverContext};
+        let profile_idx = t.below(4) as usize;
+        let (pname, solver) = shim::profile(profile_idx);
+        let seed = 1 + t.u16() as u64;
+        shim::apply(&ShimCfg { seed, core: "z3".into(), fault: None, log: None });
+        let mut ctx = Context::default();
+        let n = 1 + t.below(4);
+        let mut pinned: Vec<(ExprRef, Val)> = vec![];
+        for k in 0..n {
+            let arr = pname != "yices-smt2" && t.chance(90);
+            if arr {
+                let iw = t.range(1, 3);
+                let dw = if t.chance(64) { 1 } else { t.range(2, 9) };
+                let sym = ctx.array_symbol(&format!("m{}", k), iw, dw);
+                let mut a = Arr::constant(iw, &Bv::new(dw, t.bits(dw)));
+                for _ in 0..t.below(4) {
+                    a = a.store(&Bv::new(iw, t.bits(iw)), &Bv::new(dw, t.bits(dw)));
+                }
+                pinned.push((sym, Val::Arr(a)));
+            } else {
+                let w = match t.below(4) {
+                    0 => 1,
+                    1 => t.range(2, 8),
+                    2 => 4 * t.range(1, 20),
+                    _ => t.range(9, 130),
+                };
+                let sym = ctx.bv_symbol(&format!("c{}", k), w);
+                pinned.push((sym, Val::Bv(Bv::new(w, t.bits(w)))));
+            }
+        }
+        let fail = |sig: String, msg: String| Failure::new(sig, format!("{} (profile {}, shim seed {})", msg, pname, seed));
+        let r = guard(|| -> Result<Vec<(ExprRef, ExprRef)>, String> {
+            let e = |x: patronus::smt::Error| format!("{}", x);
+            let mut s = solver.start(None).map_err(|x| format!("START:{}", x))?;
+            s.set_logic(Logic::All).map_err(e)?;
+            for (sym, v) in pinned.iter() {
+                s.declare_const(&ctx, *sym).map_err(e)?;
+                let lit = match v {
+                    Val::Bv(b) => ctx.bv_lit(&b.to_baa()),
+                    Val::Arr(a) => {
+                        let d = ctx.bv_lit(&Bv::new(a.dw, a.default.clone()).to_baa());
+                        let mut x = ctx.array_const(d, a.iw);
+                        for (k, val) in a.map.iter() {
+                            let i = ctx.bv_lit(&Bv::new(a.iw, k.clone()).to_baa());
+                            let dv = ctx.bv_lit(&Bv::new(a.dw, val.clone()).to_baa());
+                            x = ctx.array_store(x, i, dv);
+                        }
+                        x
+                    }
+                };
+                let eq = ctx.equal(*sym, lit);
+                s.assert(&ctx, eq).map_err(e)?;
+            }
+            match s.check_sat().map_err(e)? {
+                CheckSatResponse::Sat => {}
+                other => return Err(format!("pinned constants are not satisfiable: {:?}", other)),
+            }
+            let mut out = vec![];
+            for (sym, _) in pinned.iter() {
+                let v = s.get_value(&mut ctx, *sym).map_err(e)?;
+                out.push((*sym, v));
+            }
+            Ok(out)
+        });
+        let values = match r {
+            Err(p) => {
+                return Err(fail(format!("smt-read/get_value/{}", p.class()), format!("panic {}:{} {}", p.file, p.line, p.msg)));
+            }
+            Ok(Err(m)) => {
+                if m.starts_with("START:") {
+                    return Err(Failure::new("harness/solver-start", m));
+                }
+                let kind = if m.contains("failed to parse") { "response-rejected" } else { "error" };
+                return Err(fail(format!("smt-read/get_value/{}", kind), m));
+            }
+            Ok(Ok(v)) => v,
+        };
+        for ((sym, exp), (_, got)) in pinned.iter().zip(values.iter()) {
+            let class = match exp {
+                Val::Bv(b) if b.w == 1 => "bool".to_string(),
+                Val::Bv(b) => format!("bv-{}", crate::props::c06::wclass(b.w)),
+                Val::Arr(a) => format!("array-{}{}", if a.iw == 1 { "boolidx" } else { "bvidx" }, if a.dw == 1 { "-booldata" } else { "" }),
+            };
+            let gv = match refeval::eval(&ctx, &Env::default(), *got) {
+                Ok(v) => v,
+                Err(m) => {
+                    return Err(fail(
+                        format!("smt-read/get_value/{}/not-a-value", class),
+                        format!("get_value({}) returned {} : {}", refeval::show(&ctx, *sym), refeval::show(&ctx, *got), m),
+                    ));
+                }
+            };
+            if !gv.sem_eq(exp) {
+                return Err(fail(
+                    format!("smt-read/get_value/{}/wrong-value", class),
+                    format!("get_value({}) = {} but the solver holds {}", refeval::show(&ctx, *sym), gv.short(), exp.short()),
+                ));
+            }
+            rec.label(&format!("v:get_value:{}", class));
+        }
+        rec.nontrivial(hash_bytes(format!("{:?}{}", pinned.iter().map(|p| p.1.short()).collect::<Vec<_>>(), seed).as_bytes()));
+        if rec.want_sample() {
+            rec.sample(format!(
+                "(v) get_value via {}: {}",
+                pname,
+                pinned.iter().map(|(s, v)| format!("{}={}", refeval::show(&ctx, *s), v.short())).collect::<Vec<_>>().join(" ")
+            ));
+        }
+        Ok(())
+    }
+}
+
 impl Prop for C14 {
     fn id(&self) -> &'static str {
         "C14"
     }
+    fn isolated(&self) -> bool {
+        true
+    }
+    fn setup(&self, _tier: Tier) -> Result<(), String> {
+        crate::shim::install().map(|_| ())
+    }
     fn rule(&self) -> String {
-        "(i) every SmtCommand variant and tape-decoded terms (as C05) written by serialize_cmd and read back with parse_expr / parse_command / read_command given the declared symbols: same command kind, same type, reference-evaluator equal under all (<= 10 bits) or 8 sampled assignments; (ii) random bit-vector/array model values (Bool, 1..200 bit, arrays incl. Bool index/data) printed by the independent printer in solver styles (binary, hex, true/false, store chains over as const with shadowed duplicate indices, let-bound sub-terms, extra whitespace/comments/line breaks) and read with parse_expr: value must equal the value printed; (iii) single-edit malformed variants (truncation inside a parenthesis, missing ')', extra ')', unterminated | or \") that the independent reader rejects: outcome must be Err, or Ok with the original's meaning; a panic or a different value fails. Non-trivial: (i) compound term with a coercion or n-ary form, (ii) array value with >= 2 stores or a let, (iii) every single-edit text; distinct by hash of the text.".into()
+        "(i) every SmtCommand variant and tape-decoded terms (as C05) written by serialize_cmd and read back with parse_expr / parse_command / read_command given the declared symbols: same command kind, same type, reference-evaluator equal under all (<= 10 bits) or 8 sampled assignments; (ii) random bit-vector/array model values (Bool, 1..200 bit, arrays incl. Bool index/data) printed by the independent printer in solver styles (binary, hex, true/false, store chains over as const with shadowed duplicate indices, let-bound sub-terms, extra whitespace/comments/line breaks) and read with parse_expr: value must equal the value printed; (iii) single-edit malformed variants (truncation inside a parenthesis, missing ')', extra ')', unterminated | or \") that the independent reader rejects: outcome must be Err, or Ok with the original's meaning; a panic or a different value fails; (v) end to end: SolverContext::get_value through the real SmtLibSolverCtx against the reference solver (all four profiles) with constants of Bool / 2-130 bit / array sorts pinned by assertions, the shim printing values in randomly chosen legal spellings: the value read must equal the pinned value. Non-trivial: (i) compound term with a coercion or n-ary form, (ii) array value with >= 2 stores or a let, (iii) every single-edit text; distinct by hash of the text.".into()
     }
     fn budget(&self, tier: Tier) -> Budget {
         match tier {
@@ -301,8 +424,11 @@ impl Prop for C14 {
     }
     fn run_tape(&self, tape: &[u8], tier: Tier, rec: &mut Recorder) -> Result<(), Failure> {
         let mut t = Tape::new(tape);
-        let sub = t.weighted(&[5, 3, 4]);
+        let sub = t.weighted(&[100, 60, 80, 3]);
         rec.eval();
+        if sub == 3 {
+            return self.end_to_end(&mut t, rec);
+        }
         match sub {
             // ---------------- (i) writer output
             0 => {
